@@ -210,7 +210,7 @@ STORAGE_PROPS = {
                 rel=st(opfields={"block": ["files", "files2", "proofs", "providers", "bank", "panic"]})),
     "C04": dict(main="payments", monitor=mon_storage.c04, facts=facts.gen_pure_fns,
                 rel=st(ops=["buyStorage"], opfields={"postFile": ["bank", "gauges", "outcome"]})),
-    "C05": dict(main="storage", monitor=mon_storage.c05, panic=True,
+    "C05": dict(main="storage", extra=("payments", "forms", "mint", "rns", "notif", "filetree"), monitor=mon_storage.c05, panic=True,
                 rel=st(fields=["panic"], ops=["block"], opfields={"postFile": ["outcome", "files"]})),
     "C07": dict(main="plans", monitor=mon_storage.c07,
                 rel=st(fields=["payinfo"], ops=["postFile", "deleteFile"], opfields={"buyStorage": ["outcome"], "block": ["files", "files2"]})),
